@@ -1496,6 +1496,21 @@ class Engine(object):
                         yield r
                     continue
                 for s1, ctrl in self.exec_block(func.node.body, s0, nfr):
+                    if (ctrl is None or ctrl[0] == "return") and func.qualname.endswith(".__init__") and func.owner is not None:
+                        # leaving the constructor of the object's own class: every field with a declared type must have been
+                        # initialised by now (by this constructor or the base-class constructors it called)
+                        selfv = s1.envs[nfr.eid].get("self")
+                        if isinstance(selfv, Z) and self.concrete_id(selfv.t) is not None and self.concrete_id(selfv.t) >= FRESH_BASE:
+                            cn = self.class_of_value(s1, selfv)
+                            own = self.repo.lookup_method(cn, "__init__")[1] if cn else None
+                            if own is not None and getattr(own, "qualname", None) == func.qualname:
+                                written = set((p[1], p[2]) for p in (s1.ghost.get("ctor_ty") or ()))
+                                for c in self.repo.classes[cn].mro:
+                                    for (kc, kf), kty in sorted(self.cfg.field_types.items(), key=lambda kv: (str(kv[0][0]), kv[0][1])):
+                                        if kc == c.name and kty not in (None, "any") and not any(w[1] == kf for w in written):
+                                            self.oblige(s1, nfr, "type-invariant %s.%s" % (cn, kf), "TY",
+                                                        self.ty_formula(s1, s1.get(self.heap_key(cn, kf), Val.id(selfv.t)), kty),
+                                                        info={"at": "constructor exit: the field was never assigned"})
                     if (ctrl is None or ctrl[0] == "return") and s1.ghost.get("ctor_ty"):
                         mine = [p for p in s1.ghost["ctor_ty"] if p[0] == nfr.eid]
                         if mine:
